@@ -268,7 +268,21 @@ A64 = [
 
 
 def cases(isa):
-    return [(t, S(r), S(w), S(o)) for t, r, w, o in (X86 if isa == "x86" else A64)]
+    """the curated lines, plus -- the roles of an instruction do not depend on the VALUE of its immediate -- a twin of every line
+    with an immediate in which that immediate is 0 / 0x0 (a falsy value: `if operand.value` instead of `is not None` in the look-up
+    silently sends `cmp x1, #0` to the default rule)"""
+    import re
+    out = []
+    for t, r, w, o in (X86 if isa == "x86" else A64):
+        out.append((t, S(r), S(w), S(o)))
+        rx = r"\$-?\d+" if isa == "x86" else r"#-?\d+(?!\w)"
+        m = re.search(rx, t)
+        if m and "lsl #" not in t[max(0, m.start() - 4):m.end()] and not re.search(r"\],\s*#|#-?\d+\]", t[m.start() - 3 if m.start() >= 3 else 0:m.end() + 1]):
+            for z in ("0", "0x0"):
+                t2 = t[:m.start()] + ("$" if isa == "x86" else "#") + z + t[m.end():]
+                if t2 != t:
+                    out.append((t2, S(r), S(w), S(o)))
+    return out
 
 
 def run(ctx, pipes_for):
